@@ -3,7 +3,8 @@
 CrossHair/z3 over the REAL API.build (all passes) on descriptor sets assembled from symbolic booleans:
 for ALL type graphs within the bound (field edges incl. cycles and self edges, nested message/enum, an
 enum living in an enum-only file, a message in another file, a resource reference, LRO response and
-metadata types), ALL RPC input/output choices and ALL non-empty subsets of allow-listed RPCs:
+metadata types), ALL RPC input/output choices and ALL non-empty subsets of allow-listed RPCs (plus a Compute-style API
+whose initiating RPC needs the extended-operation polling method of another service, in both declaration orders):
 kept messages/enums/services/methods/files == reference reachability closure, no dangling field
 type, dependency files untouched; internal mode keeps everything and marks exactly the unlisted RPCs
 and their services; unknown / other-version names are rejected.
@@ -33,7 +34,7 @@ def body(chk: core.Check):
         "(path exploration with solver-proved exhaustion: the weakest use of a solver in this framework)",
     ]
     chk.outside += ["that the pruned model renders to an importable library and kept RPCs behave as in the full one",
-                    "extended-operation polling methods", "graphs larger than the bound"]
+                    "graphs larger than the bound"]
     for fn in ("Proto.add_to_address_allowlist", "Proto.prune_messages_for_selective_generation",
                "API.enforce_valid_library_settings"):
         src = open(f"{core.REPO}/gapic/schema/api.py").read()
@@ -46,8 +47,8 @@ def body(chk: core.Check):
     parts = [{"VERIF_PART": str(i)} for i in range(16)]
     res = ch.run(H, ["closure"], timeout=timeout, env=env, jobs=chk.jobs, partitions=parts)
     ch.settle(chk, H, res, "closure")
-    res2 = ch.run(H, ["internal", "rejects"], timeout=timeout, env=env, jobs=chk.jobs)
-    ch.settle(chk, H, res2, "internal/rejects")
+    res2 = ch.run(H, ["internal", "rejects", "extended"], timeout=timeout, env=env, jobs=chk.jobs)
+    ch.settle(chk, H, res2, "internal/rejects/extended-operations")
     tw = ch.run(H, ["twin"], timeout=120, env=env, jobs=1)[0]
     chk.twin("closure: transitive chain M0 -> M1 -> M2 kept through one RPC is reachable", tw["status"] == "refuted")
     for r in res[:2] + res2:
